@@ -173,15 +173,21 @@ func c03Pre(w *wctx, p *position.Position, r *refchess.Pos) {
 	s0 := takeSnap(p, u.ev)
 	u.stack = append(u.stack, s0)
 	pseudo := append([]Move{}, (*w.mg.GeneratePseudoLegalMoves(p, movegen.GenAll, false))...)
-	for _, m := range pseudo {
-		clamp := isClampEvent(p, m)
-		p.DoMove(m)
-		p.HasCheck() // populate the cache as a search would
-		p.UndoMove()
-		run.AddTransitions(1)
-		u.report(w, r, "undo:"+kindNames[eng.TupleOfEng(m).Kind], snapDiffs(s0, takeSnap(p, u.ev)), clamp,
-			map[string]interface{}{"move": m.StringUci(), "ops": "DoMove UndoMove"})
+	doMoves := func() {
+		for _, m := range pseudo {
+			clamp := isClampEvent(p, m)
+			p.DoMove(m)
+			p.HasCheck() // populate the cache as a search would
+			p.UndoMove()
+			run.AddTransitions(1)
+			u.report(w, r, "undo:"+kindNames[eng.TupleOfEng(m).Kind], snapDiffs(s0, takeSnap(p, u.ev)), clamp,
+				map[string]interface{}{"move": m.StringUci(), "ops": "DoMove UndoMove"})
+		}
 	}
+	// The null-move excursion comes first: the undo-stack slot of this ply then still holds what an earlier node of the
+	// walk (a sibling subtree with another clock / check status / ep square) left there, or nothing at all for a
+	// position set up from FEN - a null move that does not save one of the scalars restores that stale value.
+	defer doMoves()
 	if !s0.hasCheck {
 		p.DoNullMove()
 		run.Count("null_moves", 1)
@@ -262,7 +268,18 @@ func c03(tier string, args []string) int {
 	}
 	nu := func() interface{} { return &c03user{ev: evaluator.NewEvaluator()} }
 	runTree(run, seeds, depth, nu, c03Pre, c03Post)
-	one := func(w *wctx, p *position.Position, r *refchess.Pos) { c03Pre(w, p, r); c03Post(w, p, r) }
+	one := func(w *wctx, p *position.Position, r *refchess.Pos) {
+		c03Pre(w, p, r)
+		c03Post(w, p, r)
+		if r.EP < 0 { // also with a non-trivial clock (a position set up from FEN has an empty undo stack)
+			r2 := r.Clone()
+			r2.Half, r2.Full = 37, 41
+			if p2, err := position.NewPositionFen(r2.FEN()); err == nil {
+				c03Pre(w, p2, r2)
+				c03Post(w, p2, r2)
+			}
+		}
+	}
 	fams := []family{famPPromo(), famPEP([]int8{}, true, "PEP(kings+pawns, second capturer)")}
 	if tier == "thorough" {
 		fams = append(fams, famPCastle(0), famP3(space.P3Opt{}, "P3"))
